@@ -2,5 +2,5 @@ From Coq Require Extraction.
 From Coq Require Import ExtrOcamlBasic.
 From PV Require Import Extract.Api.
 Cd "../build/ocaml".
-Extraction "pelmodel.ml" Api.run.
+Extraction "pelmodel.ml" Api.pelmodel_entry.
 Cd "../../coq".
